@@ -169,7 +169,7 @@ func (ls *linScenario) sequential(order [][2]int) string {
 			if err != nil {
 				r = vm.Err("PARSE " + err.Error())
 			}
-			replies[o[0]][o[1]] = vm.Canon(r)
+			replies[o[0]][o[1]] = linCanon(ls.threads[o[0]][o[1]], r)
 		}
 		final = dumpState(obs, []int{0, 1})
 	})
@@ -179,6 +179,29 @@ func (ls *linScenario) sequential(order [][2]int) string {
 	}
 	ls.seqMemo[key] = out
 	return out
+}
+
+// linCanon is the form in which a reply enters the linearizability comparison. Replies that
+// describe the connection table or the server (client ids, ages, counters) differ between the
+// concurrent run and its sequential re-execution for reasons that have nothing to do with
+// atomicity; only their kind is compared.
+func linCanon(args []string, r vm.Reply) string {
+	if len(args) > 0 {
+		switch strings.ToUpper(args[0]) {
+		case "INFO", "HELLO":
+			if !r.IsErr() {
+				return "<" + strings.ToLower(args[0]) + " reply>"
+			}
+		case "CLIENT":
+			if len(args) > 1 && !r.IsErr() {
+				switch strings.ToUpper(args[1]) {
+				case "LIST", "INFO", "ID":
+					return "<client " + strings.ToLower(args[1]) + " reply>"
+				}
+			}
+		}
+	}
+	return vm.Canon(r)
 }
 
 func (ls *linScenario) check(x *Exec) [][2]string {
@@ -240,7 +263,7 @@ func (ls *linScenario) check(x *Exec) [][2]string {
 	for i := range per {
 		observed[i] = make([]string, len(per[i]))
 		for j, c := range per[i] {
-			observed[i][j] = vm.Canon(c.Reply)
+			observed[i][j] = linCanon(c.Args, c.Reply)
 		}
 	}
 	want := fmt.Sprint(observed) + "|" + x.Final
@@ -390,6 +413,51 @@ func txScenarios(tier string) []*Scenario {
 	add("tx/EXEC(FLUSHDB)||SET+GET", [][]string{{"MULTI"}, {"FLUSHDB"}, {"SET", "a", "t"}, {"EXEC"}}, [][]string{{"SET", "a", "w"}, {"GET", "a"}})
 	add("tx/DISCARD||SET", [][]string{{"WATCH", "a"}, {"MULTI"}, {"SET", "a", "1"}, {"DISCARD"}, {"GET", "a"}}, [][]string{{"SET", "a", "2"}})
 	add("tx/EXEC(SELECT)||SET", [][]string{{"MULTI"}, {"SET", "a", "d0"}, {"SELECT", "1"}, {"SET", "a", "d1"}, {"EXEC"}}, [][]string{{"SET", "a", "w"}})
+	return out
+}
+
+// histScenarios (C08 group "hist"): atomicity must not depend on what a connection did before. One
+// connection first runs a prelude that leaves (or should leave) no trace - a finished or discarded
+// transaction, introspection commands that walk the client table, a protocol switch, a database
+// round trip, a timed-out blocking pop, a failing command - and then a command that races with a
+// second connection on the same keys.
+func histScenarios(tier string) []*Scenario {
+	var out []*Scenario
+	preludes := []struct {
+		name string
+		cmds [][]string
+	}{
+		{"EXEC", [][]string{{"MULTI"}, {"SET", "c", "1"}, {"EXEC"}}},
+		{"DISCARD", [][]string{{"MULTI"}, {"SET", "c", "1"}, {"DISCARD"}}},
+		{"EXECABORT", [][]string{{"MULTI"}, {"NOSUCHCMD"}, {"EXEC"}}},
+		{"WATCH-UNWATCH", [][]string{{"WATCH", "a"}, {"UNWATCH"}}},
+		{"CLIENT_INFO", [][]string{{"CLIENT", "INFO"}}},
+		{"CLIENT_LIST", [][]string{{"CLIENT", "LIST"}}},
+		{"HELLO3", [][]string{{"HELLO", "3"}}},
+		{"SELECT1-0", [][]string{{"SELECT", "1"}, {"SELECT", "0"}}},
+		{"BLPOP-timeout", [][]string{{"BLPOP", "nolist", "0.01"}}},
+		{"WRONGTYPE", [][]string{{"GET", "la"}}},
+		{"INFO", [][]string{{"INFO"}}},
+	}
+	races := []struct {
+		name   string
+		mine   []string
+		theirs [][]string
+	}{
+		{"MGET||MSET", []string{"MGET", "a", "b"}, [][]string{{"MSET", "a", "3", "b", "3"}}},
+		{"INCR||INCR", []string{"INCR", "a"}, [][]string{{"INCR", "a"}}},
+		{"LMOVE||LRANGEx2", []string{"LMOVE", "la", "lb", "LEFT", "RIGHT"}, [][]string{{"LRANGE", "la", "0", "-1"}, {"LRANGE", "lb", "0", "-1"}}},
+	}
+	for pi, p := range preludes {
+		for ri, r := range races {
+			if tier != "thorough" && ri == 2 && pi%3 != 0 {
+				continue
+			}
+			t1 := append(append([][]string{}, p.cmds...), r.mine)
+			ls := &linScenario{name: "hist/" + p.name + "+" + r.name, setup: linSetup, threads: [][][]string{t1, r.theirs}}
+			out = append(out, ls.scenario())
+		}
+	}
 	return out
 }
 
